@@ -347,6 +347,54 @@ fn window_edge(run: &mut Run, dicts: &[DictCase]) {
     });
     let x = merge(run, "C09", "dictionary_reach_at_the_window_edge", accs, true);
     run.add("model_frames_validated_by_reference", x[0]);
+
+    // the same question as a small complete lattice right at the edge: P literal bytes (in a compressed block, so
+    // that they are output the decoder counts), then a match r1 bytes into the dictionary of length ml1 (inside,
+    // ending at, or crossing the seam), then at once a second match into the dictionary - for every P such that
+    // the second match starts at W-11 ..= W
+    let mut cases = vec![];
+    for p in W - 14..=W - 3 {
+        for r1 in [1usize, 2, dl / 2 + 1, dl] {
+            for ml1 in 3..=12usize {
+                for r2 in [1usize, dl] {
+                    if p + ml1 <= W {
+                        cases.push((p, r1, ml1, r2));
+                    }
+                }
+            }
+        }
+    }
+    let accs = meter::par_fold(cases.len(), th, Acc::default, |a, k| {
+        let (p, r1, ml1, r2) = cases[k];
+        a.evals += 1;
+        let lits: Vec<u8> = (0..p).map(|i| (i * 11 + 5) as u8).collect();
+        let blocks = vec![
+            Block::Compressed { lits: Lits::Raw(lits, 1), count_form: 1, modes: pre(), seqs: vec![], pick: 0 },
+            Block::Compressed { lits: Lits::Raw(vec![], 0), count_form: 1, modes: pre(), seqs: vec![Seq { ll: 0, ml: ml1 as u32, of: 3 + (p + r1) as u32 }, Seq { ll: 0, ml: 3, of: 3 + (p + ml1 + r2) as u32 }], pick: 0 },
+        ];
+        let header = Header { window_desc: Some(0), dict_id: Some((1, d.model.id)), ..Default::default() };
+        let rp = json!({"case": "window_edge_lattice", "literals_before": p, "first_match_reach": r1, "first_match_length": ml1, "second_match_reach": r2});
+        let Some((frame, want)) = realize(&FrameSpec { header, blocks }, Some(&d.model)) else {
+            a.bad("MODEL:window_edge_lattice:unrealisable".into(), format!("MODEL ERROR: edge lattice frame {:?} cannot be realised", (p, r1, ml1, r2)), rp);
+            return;
+        };
+        match refz::decode_with_dict(&frame, &d.raw) {
+            Ok(x) if x == want => a.extra[0] += 1,
+            other => {
+                a.bad("MODEL:window_edge_lattice".into(), format!("MODEL ERROR: libzstd on edge lattice frame {:?}: {:?}", (p, r1, ml1, r2), other.map(|v| v.len())), rp);
+                return;
+            }
+        }
+        a.nontrivial += 1;
+        let mut dec = FrameDecoder::new();
+        dec.add_dict(Dictionary::decode_dict(&d.raw).unwrap()).unwrap();
+        match crate_decode(&mut dec, &frame, None, 8192) {
+            Ok(out) if out == want => {}
+            other => a.bad(format!("window_edge_lattice:{}", if ml1 > r1 { "first_crosses_seam" } else { "first_inside_dictionary" }), format!("{p} literals, a match {r1} bytes into the dictionary of length {ml1}, then at output position {} (window {W}) a match {r2} bytes into the dictionary - valid, libzstd decodes it: {:?}", p + ml1, other.map(|v| v.len())), rp),
+        }
+    });
+    let x = merge(run, "C09", "dictionary_reach_window_edge_lattice", accs, true);
+    run.add("model_frames_validated_by_reference", x[0]);
 }
 
 /// mixes of dictionary frames and plain frames on one decoder vs fresh decoders
